@@ -208,11 +208,13 @@ variable [LT α] [DecidableRel (α := α) (· < ·)]
 def correct (V W : M3 α) : M3 α :=
   (if V.det * W.det < 0 then V.flipLastCol else V).mul W
 
-/-- `_get_rotation_matrices(fixed, mobile)`; `svd H = (v, w)`.  Atom counts must agree (the code would
-broadcast a single atom, which is outside the property: `unmodelled`). -/
+/-- `_get_rotation_matrices(fixed, mobile)`; `svd H = (v, w)`. -/
 def getRotation (svd : M3 α → M3 α × M3 α) (fixed mobile : Stack α) : Except Err (List (M3 α)) := do
   let pairs ← bzip fixed mobile
-  if pairs.any (fun p => p.1.length ≠ p.2.length) then .error unmodelled
+  -- different atom counts: numpy refuses to broadcast (ValueError) unless one side has a single atom,
+  -- which it silently repeats (contradicts the documented contract "atom i corresponds to atom i": unmodelled)
+  if pairs.any (fun p => p.1.length ≠ p.2.length ∧ p.1.length ≠ 1 ∧ p.2.length ≠ 1) then .error .valueError
+  else if pairs.any (fun p => p.1.length ≠ p.2.length) then .error unmodelled
   else pure (pairs.map fun p => let vw := svd (cov1 p.1 p.2); correct vw.1 vw.2)
 
 end Algebra
